@@ -15,10 +15,14 @@ KINDS2 = KINDS + ('bytearray', 'deque', 'range')
 # round 3: still more input kinds: a dict (its keys, distinct items only), a memoryview and an array of small ints
 # (sequences that are not list / str / bytes), a bare iterable (only __iter__: no len, no bool, no indexing)
 # and an old-style sequence (only __len__ / __getitem__)
-KINDS3 = KINDS2 + ('dict', 'memoryview', 'array', 'iterable', 'getitem')
+# round 3b: 'words' - a list whose items are whole strings ('aa', 'bb', ...; None allowed), the item type of the
+# library's own docstring examples: a str separator / strip value is then ONE item value (is_scalar), not a
+# collection of characters
+KINDS3 = KINDS2 + ('dict', 'memoryview', 'array', 'iterable', 'getitem', 'words')
 REITERABLE = ('list', 'tuple', 'str', 'bytes', 'bytearray', 'deque', 'range', 'dict', 'memoryview', 'array',
-              'iterable', 'getitem')
-MUTABLE = ('list', 'bytearray', 'deque', 'dict', 'array')
+              'iterable', 'getitem', 'words')
+MUTABLE = ('list', 'bytearray', 'deque', 'dict', 'array', 'words')
+WORD_KEYS = ('id', 'const', 'nope', 'real')      # key kinds that make sense for str items
 KEYS_NUM = ('id', 'mod2', 'mod3', 'div2', 'const', 'bool', 'real', 'imag', 'den', 'nope')
 
 
@@ -65,8 +69,15 @@ class GetItemSeq:
         return self._items[i]
 
 
+def ekind(kind):
+    """the kind that decides how a separator / strip value / fill code is decoded for an input of this kind"""
+    return kind if kind in ('str', 'words') else 'list'
+
+
 def kind_ok(kind, codes):
     """can an input of this kind hold exactly these item codes?"""
+    if kind == 'words':
+        return all(c == 0 or tag(c) == 0 for c in codes)
     if kind == 'range':
         return is_run(codes)
     if kind == 'dict':
@@ -79,6 +90,8 @@ def kind_ok(kind, codes):
 
 
 def dec(c, kind='list'):
+    if kind == 'words':
+        return None if c == 0 else chr(97 + val(c)) * 2
     kind = ikind(kind)
     if kind == 'str':
         return chr(97 + val(c))
@@ -94,7 +107,7 @@ def dec_fill(c, kind):
     """a fill / end value of the item type of `kind` (None stays None)"""
     if c is None or c == 0:
         return None
-    return dec(c, ikind(kind))
+    return dec(c, kind if kind == 'words' else ikind(kind))
 
 
 class BadValue(Exception):
@@ -117,6 +130,8 @@ def enc(o):
         return 1 + 3 * int(o) + 1
     if type(o) is str and len(o) == 1 and ord(o) >= 97:
         return 1 + 3 * (ord(o) - 97)
+    if type(o) is str and len(o) == 2 and o[0] == o[1] and ord(o[0]) >= 97:
+        return 1 + 3 * (ord(o[0]) - 97)          # a 'words' item
     raise BadValue('not an input item: ' + repr(o)[:60])
 
 
@@ -127,7 +142,9 @@ def encl(seq):
 
 def mk_src(codes, kind):
     items = [dec(c, kind) for c in codes]
-    if kind == 'list':
+    if kind in ('list', 'words'):
+        if not kind_ok(kind, codes):
+            raise BadCase('words input needs plain codes')
         return items
     if kind == 'tuple':
         return tuple(items)
@@ -226,7 +243,7 @@ def kcls(k):
     if k is None:
         return 0
     if type(k) is str:
-        return ord(k) - 97 + 1
+        return ord(k[0]) - 97 + 1
     return int(k) + 1
 
 
@@ -525,7 +542,9 @@ class C09(Property):
         # round 2: small, diverse, adversarial families first (a defect should surface within seconds), the big
         # exhaustive scopes after them, seeded random last
         yield from self.gen_small()
+        yield from self.gen_words()
         yield from self.gen_huge()
+        yield from self.gen_big()
         yield from self.gen_group(th)
         yield from self.gen_ranges(th)
         yield from self.gen_chunk_window(th)
@@ -539,7 +558,9 @@ class C09(Property):
         """finite (about a minute): wider exhaustive scopes, then random cases with a larger share of big ones"""
         rng = self.rng
         yield from self.gen_small()
+        yield from self.gen_words()
         yield from self.gen_huge()
+        yield from self.gen_big()
         yield from self.gen_group(True)
         yield from self.gen_ranges(True)
         yield from self.gen_chunk_window(True)
@@ -749,6 +770,78 @@ class C09(Property):
                                 yield case
                             yield dict(base, pa={'size': 'h', 'cs': 'f', 'off': 'h', 'ov': 'f'})
 
+    def gen_words(self):
+        """round 3b: lists of whole-string items ('aa', 'bb', None ...), as in the library's docstring examples
+        (`split(['hi', 'hello', None, ...])`, `lstrip(['Foo', 'Bar'], 'Foo')`): a str separator / strip value is
+        ONE item value here (is_scalar), a collection of strings is a collection, the keys are the strings"""
+        syms = (0, 1, 4, 7)           # None, 'aa', 'bb', 'cc'
+        i = 0
+        for n in range(0, 5):
+            for xs in itertools.product(syms, repeat=n):
+                if n == 4 and xs[0] != 1:
+                    continue
+                xs = list(xs)
+                i += 1
+                tw = {'twice': True} if i % 3 == 0 else {}
+                for j, sep in enumerate((['n'], ['v', 1], ['v', 4], ['s', [1]], ['s', [1, 4]], ['s', [0, 7]],
+                                         ['c', [1]])):
+                    ms = (None, 1, None, 2, 0)[(i + j) % 5]
+                    case = dict({'op': 'split', 'kind': 'words', 'xs': xs, 'sep': sep, 'ms': ms}, **tw)
+                    if sep[0] == 's' and i % 2:
+                        case['sc'] = ('list', 'tuple', 'set', 'frozenset', 'dict', 'deque', 'gen', 'iter')[i % 8]
+                    yield case
+                for op in ('lstrip', 'rstrip', 'strip'):
+                    for v in (0, 1, 4):
+                        yield dict({'op': op, 'kind': 'words', 'xs': xs, 'v': v}, **tw)
+                for key in WORD_KEYS:
+                    yield dict({'op': 'unique', 'kind': 'words', 'xs': xs, 'key': key}, **tw)
+                    yield dict({'op': 'redundant', 'kind': 'words', 'xs': xs, 'key': key, 'groups': bool(i % 2)}, **tw)
+                    yield dict({'op': 'bucketize', 'kind': 'words', 'xs': xs, 'key': key, 'vt': 'id',
+                                'kf': (None, 1, 2, 0)[i % 4]}, **tw)
+                yield {'op': 'partition', 'kind': 'words', 'xs': xs, 'key': 'const'}
+                if n <= 3:
+                    for size in (1, 2, 3):
+                        for fill in (None, 0, 13):
+                            yield dict({'op': 'chunked', 'kind': 'words', 'xs': xs, 'size': size, 'count': None,
+                                        'fill': fill}, **tw)
+                            yield dict({'op': 'windowed', 'kind': 'words', 'xs': xs, 'size': size, 'fill': fill}, **tw)
+
+    def gen_big(self):
+        """round 3b: a few LONG inputs per helper (lengths around powers of two and 1000): a shortcut that is
+        only taken above a size threshold is outside every small scope"""
+        rng = self.rng
+        for n in (63, 64, 65, 127, 129, 255, 257, 511, 1023, 1025, 2049):
+            xs = [1 + 3 * (i % 97) for i in range(n)]
+            rs = [1 + 3 * rng.randrange(7) for _ in range(n)]
+            for kind in ('list', 'iter', 'bytes', 'str', 'tuple'):
+                if n > 300 and kind in ('bytes', 'tuple'):
+                    continue
+                for size in (1, 2, 7, n - 1, n, n + 1, n // 2):
+                    if n > 300 and size == 1:
+                        continue
+                    yield {'op': 'chunked', 'kind': kind, 'xs': xs, 'size': size, 'count': None,
+                           'fill': None if size % 2 else 13}
+                yield {'op': 'chunked', 'kind': kind, 'xs': xs, 'size': 3, 'count': n // 5, 'fill': None}
+                for size in (1, 2, 5, n) if n <= 300 else (2, 3):
+                    yield {'op': 'windowed', 'kind': kind, 'xs': xs, 'size': size, 'fill': None}
+                    yield {'op': 'windowed', 'kind': kind, 'xs': xs, 'size': size, 'fill': 13}
+                yield {'op': 'pairwise', 'kind': kind, 'xs': xs, 'fill': None}
+                for sep in (['v', 1], ['s', [1, 4]], ['c', [4]]):
+                    yield {'op': 'split', 'kind': kind, 'xs': rs, 'sep': sep, 'ms': None}
+                    yield {'op': 'split', 'kind': kind, 'xs': rs, 'sep': sep, 'ms': n // 3}
+                for op in ('lstrip', 'rstrip', 'strip'):
+                    pad = [4] * (n // 3)
+                    yield {'op': op, 'kind': kind, 'xs': pad + rs + pad, 'v': 4}
+                if kind != 'str':
+                    for key in ('id', 'mod3', 'div2'):
+                        yield {'op': 'unique', 'kind': kind, 'xs': rs if n > 300 else xs, 'key': key}
+                        yield {'op': 'redundant', 'kind': kind, 'xs': rs, 'key': key, 'groups': n % 2 == 0}
+                        yield {'op': 'bucketize', 'kind': kind, 'xs': rs, 'key': key, 'vt': 'id', 'kf': None}
+                    yield {'op': 'partition', 'kind': kind, 'xs': rs, 'key': 'mod2'}
+            none_rs = [0 if c == 1 else c for c in rs]
+            yield {'op': 'split', 'kind': 'list', 'xs': none_rs, 'sep': ['n'], 'ms': None}
+            yield {'op': 'split', 'kind': 'gen', 'xs': none_rs, 'sep': ['n'], 'ms': n // 4}
+
     def gen_huge(self):
         """round 2: boundary arithmetic at huge magnitudes (exact integers; a float shortcut goes wrong here)"""
         for step in (10 ** 17, 2 ** 60 + 1, 3 * 10 ** 18 + 7):
@@ -884,6 +977,9 @@ class C09(Property):
             elif ikind(kind) != 'list':
                 xs = self.random_items(rng, n, 6, none_ok=False, aliases=False)
                 fill = rng.choice([None, 1 + 3 * rng.randrange(6)])
+            elif kind == 'words':
+                xs = self.random_items(rng, n, 5, aliases=False)
+                fill = rng.choice([None, 0, 1 + 3 * rng.randrange(6)])
             else:
                 xs = self.random_items(rng, n, 5)
                 fill = rng.choice([None, 0, rng.choice([1, 2, 4, 6, 13])])
@@ -930,11 +1026,19 @@ class C09(Property):
                     sep = ['t', self.random_items(rng, rng.choice([0, 1, 1, 2, 3]), ncl, none_ok=False, aliases=False)]
             elif rng.random() < 0.1:
                 kind = 'deque'
+            elif rng.random() < 0.15:
+                # whole-string items: separators and items without the 1 / 1.0 / True aliases
+                kind = 'words'
+                xs = [c - tag(c) if c else 0 for c in xs]
+                if sep[0] == 'v':
+                    sep = ['v', sep[1] - tag(sep[1])]
+                elif sep[0] in 's':
+                    sep = ['s', sorted({c - tag(c) if c else 0 for c in sep[1]})]
             case = {'op': op, 'kind': kind, 'xs': xs, 'sep': sep,
                     'ms': rng.choice([None, None, rng.randint(0, 5), rng.randint(0, 2), -1 if rng.random() < 0.2 else 1])}
             if sep[0] == 's' and kind != 'str' and rng.random() < 0.5:
                 sc = rng.choice(SEP_CONTAINERS)
-                if sep_container_ok(sc, sep[1]):
+                if sep_container_ok(sc, sep[1]) and not (kind == 'words' and sc in SEP_INT_ONLY):
                     case['sc'] = sc
             r = rng.random()
             if r < 0.15 and case['ms'] is not None:
@@ -1133,23 +1237,23 @@ class C09(Property):
         """(positional arguments after src, the mutable separator container or None)"""
         dflt = bool(case.get('dflt'))
         sep = case['sep']
-        ekind = kind if kind == 'str' else 'list'
+        ek = ekind(kind)
         sepobj = None
         if sep[0] == 'n':
             a = (None,)
         elif sep[0] == 'v':
-            a = (dec(sep[1], ekind),)
+            a = (dec(sep[1], ek),)
         elif sep[0] == 't':
             a = (''.join(dec(c, 'str') for c in sep[1]),)
         elif sep[0] == 'y':
             a = (bytes(val(c) for c in sep[1]),)
         elif sep[0] == 's':
-            objs = [dec(c, ekind) for c in sep[1]]
+            objs = [dec(c, ek) for c in sep[1]]
             sc = case.get('sc')
             if sc is None:
                 sepobj = objs if len(objs) % 2 else tuple(objs)
             else:
-                if not sep_container_ok(sc, sep[1]) or ekind == 'str' and sc in SEP_INT_ONLY:
+                if not sep_container_ok(sc, sep[1]) or ek in ('str', 'words') and sc in SEP_INT_ONLY:
                     raise BadCase('a %s cannot hold the separators %r' % (sc, sep[1]))
                 sepobj = mk_sep_container(sc, objs)
                 if sc not in SEP_MUTABLE:
@@ -1159,7 +1263,7 @@ class C09(Property):
                 a = (sepobj,)
         else:
             classes = {cls(c) for c in sep[1]}
-            a = (as_callable_kind(lambda x: (0 if x is None else int(x) + 1) in classes, case.get('kc'), True),)
+            a = (as_callable_kind(lambda x: kcls(x) in classes, case.get('kc'), True),)
         if case['ms'] is not None:
             a = a + (pobj(case, 'ms'),)
         elif dflt and sep[0] == 'n':
@@ -1182,7 +1286,7 @@ class C09(Property):
             a, _ = self._split_args(case, kind)
             return iu.split_iter(src, *a)
         if op in ('lstrip', 'rstrip', 'strip'):
-            return getattr(iu, op + '_iter')(src, dec(case['v'], kind if kind == 'str' else 'list'))
+            return getattr(iu, op + '_iter')(src, dec(case['v'], ekind(kind)))
         if op == 'unique':
             k = key_callable(case['key'], case.get('kc'))
             return iu.unique_iter(src, *(() if k is None else (k,)))
@@ -1248,11 +1352,11 @@ class C09(Property):
             return [encl(w) for w in r]
         if op == 'split':
             sep = case['sep']
-            ekind = kind if kind == 'str' else 'list'
+            ek = ekind(kind)
             a, sepobj = self._split_args(case, kind)
             r = list(iu.split_iter(src, *a)) if it else iu.split(src, *a)
             if sepobj is not None:
-                want = [dec(c, ekind) for c in sep[1]]
+                want = [dec(c, ek) for c in sep[1]]
                 now = list(sepobj)
                 if type(sepobj) in (set, dict):
                     same = len(now) == len(mk_sep_container('set', want)) and all(
@@ -1263,7 +1367,7 @@ class C09(Property):
                     raise BadValue('the separator collection was modified by the call')
             return [encl(g) for g in r]
         if op in ('lstrip', 'rstrip', 'strip'):
-            v = dec(case['v'], kind if kind == 'str' else 'list')
+            v = dec(case['v'], ekind(kind))
             f = getattr(iu, op + '_iter' if it else op)
             r = f(src) if (case['v'] == 0 and len(case['xs']) % 2) else f(src, v)
             return encl(list(r))
@@ -1611,6 +1715,11 @@ class C09(Property):
             return
         if 'xs' in case:
             xs = case['xs']
+            if len(xs) > 8 and not isinstance(case.get('key'), list):
+                h = len(xs) // 2
+                yield dict(case, xs=xs[:h])
+                yield dict(case, xs=xs[h:])
+                yield dict(case, xs=xs[:len(xs) - len(xs) // 8])
             for i in range(len(xs)):
                 c = dict(case, xs=xs[:i] + xs[i + 1:])
                 if isinstance(case.get('key'), list):
